@@ -6,8 +6,16 @@ type Seq uint64
 
 var seq uint64
 
+// Set raises the counter to s; it never lowers it. The counter is shared by every
+// database opened in the process, so it must end up at least as large as the
+// largest sequence persisted in any of them.
 func Set(s Seq) {
-	atomic.CompareAndSwapUint64(&seq, 0, uint64(s))
+	for {
+		cur := atomic.LoadUint64(&seq)
+		if cur >= uint64(s) || atomic.CompareAndSwapUint64(&seq, cur, uint64(s)) {
+			return
+		}
+	}
 }
 
 func Next() Seq {
